@@ -242,7 +242,8 @@ def stack(images: list[darsia.Image]) -> darsia.Image:
         darsia.Image: stackes image
 
     """
-    image = images[0]
+    # Do not modify the first image of the list - append to a copy.
+    image = images[0].copy()
     for i in range(1, len(images)):
         image.append(images[i])
 
